@@ -136,6 +136,10 @@ def describe_fields(fields):
         else:
             out.append(('f', f[0], describe_spec(f[1])))
     _check_preceded(out)
+    for i, it in enumerate(out):
+        if it[0] == 'f' and it[2][0] == 'lp' and it[2][1] > 0 and i != len(out) - 1:
+            # the parser consumes 1 + length bytes, the serializer writes padded_size: only right for a last field
+            raise Undescribed(f'{it[1]}: padded length-prefixed field that is not the last field')
     return tuple(out)
 
 
@@ -1047,3 +1051,102 @@ lemma('data/iso/bytes', lemma_iso_bytes, prop=PROP,
           sdu is None or (sdu[3] // 16) % 4 == 0,  # RFU bits 12-13 of the SDU-length word zero
       ], inline=INLINE,
       note='well-formed per Core Vol 4 Part E 5.4.5: RFU bits zero, optional words present exactly as the flags say')
+
+
+# ---------------------------------------------------------------------------------------------------------------------
+# field-kind lemmas: one per distinct kind of field spec found in the registries, at an *arbitrary* offset inside
+# arbitrary surrounding bytes, with the wire bytes given by the HCI parameter formats (Core Vol 4 Part E 5.2: little-endian
+# integers, two's complement for signed values; '>' kinds big-endian by declaration)
+# ---------------------------------------------------------------------------------------------------------------------
+def wire_oracle(kind, raw):
+    t = kind[0]
+    if t == 'int':
+        n = kind[1]
+        u = raw % (1 << (8 * n))  # two's complement of a negative value
+        bs = [(u // (1 << (8 * i))) % 256 for i in range(n)]
+        if kind[3] == 'big':
+            bs = bs[::-1]
+        return bytes(bs)
+    if t == 'var':
+        return bytes([len(raw)]) + raw
+    if t == 'lp':
+        return bytes([len(raw)]) + raw + (bytes(kind[1] - 1 - len(raw)) if 1 + len(raw) < kind[1] else b'')
+    if t == 'addr':
+        return raw[0]
+    if t == 'coding':
+        return bytes([raw[0]]) + le16_bytes(raw[1]) + le16_bytes(raw[2])
+    if t == 'obj':
+        return b''.join([wire_oracle(it[2], r) for it, r in zip(kind[2], raw)])
+    return raw
+
+
+def make_kind_lemma(spec, kind):
+    def requires(pre, raw, suf):
+        out = dom_items([('f', 'x', kind)], [raw])
+        if kind[0] == 'rest':
+            out.append(len(suf) == 0)
+        if kind[0] == 'lp':
+            out.append(len(raw) <= kind[1] - 1)  # the padded form (longer data is written without padding)
+        if kind == ('addr', 'preceded'):
+            out = [len(pre) >= 1, is_public_type(raw[1]) == is_public_type(pre[len(pre) - 1])]
+        return out
+
+    def L(pre, raw, suf):
+        v = mk_value(kind, raw)
+        b = HCI_Object.serialize_field(v, spec)
+        assert b == wire_oracle(kind, raw)
+        got, size = HCI_Object.parse_field(pre + b + suf, len(pre), spec)
+        if kind[0] == 'lp':
+            # parse_length_prefixed_bytes reports the significant part only, not the padding: harmless because such a field
+            # is the last one of its class (checked at import by describe_fields)
+            assert size == 1 + len(raw)
+        else:
+            assert size == len(b)
+        assert same_value(got, v)
+
+    return L, requires
+
+
+def kind_name(spec, kind):
+    t = kind[0]
+    if t == 'int':
+        enum_cls = spec['parser'].__qualname__.split('.')[0] if isinstance(spec, dict) and 'parser' in spec else ''
+        tag = enum_cls if enum_cls else ('dict-size' if isinstance(spec, dict) else repr(spec))
+        return f'int{8 * kind[1]}{"s" if kind[2] else "u"}-{kind[3]}[{tag}]'
+    if t == 'bytes':
+        return f'bytes{kind[1]}' + ('[dict]' if isinstance(spec, dict) else '')
+    if t == 'obj':
+        return 'object-' + kind[1].__qualname__
+    if t == 'addr':
+        return f'address-{kind[1]}[{getattr(spec, "__qualname__", "?")}]'
+    return '-'.join(str(x) for x in kind)
+
+
+def all_specs():
+    seen = {}
+    classes = list(hci.HCI_Command.command_classes.values()) + list(hci.HCI_Event.event_classes.values()) + list(hci.HCI_LE_Meta_Event.subevent_classes.values())
+    classes += [c.return_parameters_class for c in hci.HCI_Command.command_classes.values() if issubclass(c, hci.HCI_SyncCommand)]
+
+    def walk(fields):
+        for f in fields:
+            if isinstance(f, list):
+                walk(f)
+                continue
+            try:
+                kind = describe_spec(f[1])
+            except Undescribed:
+                continue
+            nm = kind_name(f[1], kind)
+            if nm not in seen:
+                seen[nm] = (f[1], kind)
+            if kind[0] == 'obj':
+                walk(HCI_Object.fields_from_dataclass(kind[1]))
+
+    for c in classes:
+        walk(c.fields)
+    return seen
+
+
+for _nm, (_spec, _kind) in sorted(all_specs().items()):
+    _L, _R = make_kind_lemma(_spec, _kind)
+    lemma(f'kind/{_nm}', _L, prop=PROP, params=dict(pre=Bytes, raw=value_T(_kind), suf=Bytes), requires=_R, inline=INLINE, procs=1)
